@@ -168,6 +168,11 @@ def obligations(tier, seed):
                        "comps": [{"size": 1, "children": [2]}, {"size": 1, "children": [2]}, {"size": 1}],
                        "teams": profiles.layout_workers("shared1", 3), "run": {"max_time": 8, "abs": ["$pa0"]}},
                       [["w0", 1, 2], ["w1", 1, 2], ["pa0", -1, 3]])
+    # one nesting level with a single parent (a chain of three components: parent, child, grandchild)
+    members["nest"] = ({"tasks": [{"w": "$w0", "comp": 2}, {"w": "$w1", "comp": 1}, {"w": 1, "comp": 0}], "edges": [[0, 1, 0], [1, 2, 0]],
+                        "comps": [{"size": 1, "children": [1]}, {"size": 1, "children": [2]}, {"size": 1}],
+                        "teams": profiles.layout_workers("shared1", 3), "run": {"max_time": 8, "abs": ["$pa0"]}},
+                       [["w0", 1, 2], ["w1", 1, 2], ["pa0", -1, 3]])
     firsts = [["sim", {"mt": "$m0"}], ["bwd", {"mt": "$m0", "due": 0, "rev": 1}], ["bwd", {"mt": "$m0", "due": 1, "rev": 0}]]
     seconds = [["sim", {"mt": "$m1"}]]
     for st in (0, 1):
@@ -183,7 +188,7 @@ def obligations(tier, seed):
                 for t in thirds:
                     if mname == "prod" and not thorough and t is not None:
                         continue
-                    if mname == "dag" and (t is not None or s[0] == "init" or (s[0] == "resume" and (s[1]["state"] or s[1]["log"]))):
+                    if mname in ("dag", "nest") and (t is not None or s[0] == "init" or (s[0] == "resume" and (s[1]["state"] or s[1]["log"]))):
                         continue
                     ops = [f, s] + ([t] if t else [])
                     nm = "hist/%s/%s" % (mname, ">".join(o[0] + ("".join("%s%s" % (k[0], v) for k, v in sorted(o[1].items()) if k != "mt") if len(o) > 1 else "") for o in ops))
